@@ -96,6 +96,11 @@ func getDecoder(packet []byte, state *stateDecode) (*decoder, []byte, error) {
 			return nil, nil, fmt.Errorf("extra data in folded type: %#v", rest)
 		}
 		packet = packet[n:]
+		if allocAllowed(dec.Type, 1, packet) == false {
+			// the length of an array is a part of its type: the caller is going to
+			// allocate a value of this type for the data that follows
+			return nil, nil, fmt.Errorf("incorrect data length")
+		}
 		return dec, packet, nil
 
 	case edtNil:
@@ -221,6 +226,9 @@ func decodeType(fold []byte, state *stateDecode) (*decoder, []byte, error) {
 			state = state.child
 
 			for i := 0; i < n; i++ {
+				if allocAllowed(decKey.Type, 1, packet) == false {
+					return nil, nil, fmt.Errorf("incorrect data length")
+				}
 				k := reflect.Indirect(reflect.New(decKey.Type))
 				state.decoder = decKey
 				_, p, err := decKey.Decode(&k, packet, state)
@@ -229,6 +237,9 @@ func decodeType(fold []byte, state *stateDecode) (*decoder, []byte, error) {
 				}
 				packet = p
 
+				if allocAllowed(decValue.Type, 1, packet) == false {
+					return nil, nil, fmt.Errorf("incorrect data length")
+				}
 				v := reflect.Indirect(reflect.New(decValue.Type))
 				state.decoder = decValue
 				_, p, err = decValue.Decode(&v, packet, state)
@@ -300,7 +311,7 @@ func decodeType(fold []byte, state *stateDecode) (*decoder, []byte, error) {
 				return value, packet, nil
 			}
 
-			if n > len(packet) {
+			if n > len(packet) || allocAllowed(decItem.Type, n, packet) == false {
 				return nil, nil, fmt.Errorf("incorrect data length")
 			}
 
@@ -369,6 +380,10 @@ func decodeType(fold []byte, state *stateDecode) (*decoder, []byte, error) {
 			}
 
 			if value == nil {
+				if n > len(packet) || allocAllowed(vtype, 1, packet) == false {
+					// the length of the array is a part of the type the peer sent
+					return nil, nil, fmt.Errorf("incorrect data length")
+				}
 				x := reflect.Indirect(reflect.New(vtype))
 				value = &x
 			}
@@ -410,6 +425,13 @@ func decodeType(fold []byte, state *stateDecode) (*decoder, []byte, error) {
 		return v.(*decoder), fold[1:], nil
 	}
 	return nil, nil, fmt.Errorf("no decoder for type %d", fold[0])
+}
+
+// allocAllowed reports whether the memory for n values of the type is in proportion to the
+// data they are going to be decoded from: every value takes at least one byte of the packet,
+// and no type takes more than 24 bytes in memory per byte on the wire (a nil slice)
+func allocAllowed(t reflect.Type, n int, packet []byte) bool {
+	return uint64(n)*uint64(t.Size()) <= 32*uint64(len(packet))
 }
 
 func decodePID(value *reflect.Value, packet []byte, state *stateDecode) (*reflect.Value, []byte, error) {
